@@ -127,14 +127,21 @@ def rep_to_atoms(rep, id_base=-100.0, **kw):
                  groups=[7] * n, **kw)
 
 
-def observe_replace(structure, search, replace, seed, **kwargs):
+def observe_replace(structure, search, replace, seed, _positional=False, **kwargs):
     """run the real replacement with events recorded -> dict(result|exception, found, positions, quats, selected, extends, deleted, before)"""
     import mofun
     events.seed_all(seed)
     n0 = len(events.LOG)
     out = {"exception": None, "result": None, "num_matches": None}
     try:
-        res = mofun.replace_pattern_in_structure(structure, search, replace, **kwargs)
+        if _positional:
+            # every option by position, in the documented order of the signature
+            order = ["replace_fraction", "atol", "axisp1_idx", "axisp2_idx", "opoint_idx", "return_num_matches", "replace_all", "verbose"]
+            defaults = {"replace_fraction": 1.0, "atol": 5e-2, "axisp1_idx": None, "axisp2_idx": None, "opoint_idx": None, "return_num_matches": False, "replace_all": False, "verbose": False}
+            rest = {k: v for k, v in kwargs.items() if k not in order}
+            res = mofun.replace_pattern_in_structure(structure, search, replace, *[kwargs.get(k, defaults[k]) for k in order], **rest)
+        else:
+            res = mofun.replace_pattern_in_structure(structure, search, replace, **kwargs)
         if isinstance(res, tuple):
             out["result"], out["num_matches"] = res
         else:
